@@ -72,10 +72,10 @@ public:
     if constexpr(extents_type::rank() > 0) {
       index_type prod = 1;
       for (rank_type r = 0; r < extents_type::rank()-1; ++r) {
-        assert(m.strides(r) == prod);
+        assert(m.stride(r) == prod);
         prod *= m.extents().extent(r);
       }
-      assert(m.strides(extents_type::rank()-1) == prod);
+      assert(m.stride(extents_type::rank()-1) == prod);
     }
 #endif
   }
